@@ -634,13 +634,21 @@ _TS = z3.Function("entries_bytes", z3.IntSort(), z3.IntSort())    # T(k): bytes 
 class _SymEntries:
     """The entry list of a section with a SYMBOLIC number n of entries."""
 
-    def __init__(self, n):
+    def __init__(self, n, base=None):
         self.n = n
         self.sym_length = n
+        self.base = base if base is not None else self
 
     def __bool__(self):
         from pyvc.sym import cur
         return cur().decide(self.n.t > 0)
+
+    def __getitem__(self, i):
+        # a prefix of the entries (`entries[:c]`): still entries 0, 1, ... in order, but possibly fewer of them
+        if isinstance(i, slice) and i.start in (None, 0) and i.step in (None, 1) and (i.stop is None or (isinstance(i.stop, int) and i.stop >= 0)):
+            return self if i.stop is None else _SymEntries(SymInt(z3.If(self.n.t < i.stop, self.n.t, z3.IntVal(i.stop))), self.base)
+        from pyvc.sym import Unsupported
+        raise Unsupported(f"entry list indexed by {i!r}")
 
     def __iter__(self):
         from pyvc.sym import Unsupported
@@ -678,6 +686,7 @@ class _AbsIO:
 
     prefixed = False
     uleb_entries = False       # FunctionSection: an entry IS one unsigned LEB128 integer (a type index)
+    allow_tail = False         # Code.Encode: raw bytes may follow the entries (the end opcode); nothing may follow them
 
     def __init__(self, initial=b""):
         from pyvc.sym import SymList
@@ -688,6 +697,7 @@ class _AbsIO:
         self.phase = "head"
         self.goals = []
         self.problems = []
+        self.tail = []
 
     def write(self, x):
         if isinstance(x, leb.ULEB):
@@ -701,6 +711,8 @@ class _AbsIO:
             else:
                 self.problems.append("two integers in a row among the entries")
         elif isinstance(x, _KBlob):
+            if self.tail:
+                self.problems.append("an entry written after the closing bytes")
             self.phase = "entries"
             if self.prefixed:
                 self.goals.append(("entry-size-prefix", (self.pend.value == _Z(x.k)) if self.pend is not None else z3.BoolVal(False)))
@@ -714,7 +726,12 @@ class _AbsIO:
         else:
             n = len(x) if isinstance(x, (bytes, bytearray)) else 1
             self.nbytes = self.nbytes + n
-            (self.head if self.phase == "head" else self.problems).append(x if self.phase == "head" else "raw bytes written among the entries")
+            if self.phase == "head":
+                self.head.append(x)
+            elif self.allow_tail and self.pend is None:
+                self.tail.append(x)
+            else:
+                self.problems.append("raw bytes written among the entries")
 
     def getbuffer(self):
         return _AbsView(self)
@@ -800,11 +817,11 @@ def frame_unbounded(R):
             return [("init.count-first", z3.And(z3.BoolVal(len(c.head) == 1 and isinstance(c.head[0], leb.ULEB) and not c.problems), c.head[0].value == n.t) if c.head and isinstance(c.head[0], leb.ULEB) else False),
                     ("init.no-entry-yet", z3.And(c.log.n == 0, c.nbytes == leb.uleblen(n.t))),
                     ("init.nothing-written-to-the-output", not out.rec),
-                    ("init.ranges-over-all-entries", it is vars(sec)[lname]),
+                    ("init.ranges-over-all-entries", (it.n.t == n.t) if isinstance(it, _SymEntries) and it.base is vars(sec)[lname] else False),
                     ("init.leb-precondition", z3.And(*stub.requires))]
 
         def replay(model, clause, sname=sname, add=add):
-            n = max(1, min(int(model.get("n", 3)), 300))
+            n = max(1, min(int(model.get("n", 3)), 5000))
             return script("""
                 import io, nsl.WebAssembly as W
                 {{dec}}
@@ -891,3 +908,149 @@ def frame_unbounded(R):
                     ("exit.leb-precondition", z3.And(*stub.requires))]
 
         verify(R, f"C19.frame.unbounded.{sname}", FN, run_exit, replay, label="loop-cut")
+
+
+@family("C19.frame.unbounded.Code", props=["C19", "C07"], functions=[W + "::Code.Encode"],
+        assumptions=[SHIMS, "modular cut: WriteInteger is replaced by its contract; Local.WriteTo / Instruction.WriteTo write one opaque blob each (their own encodings are C19.leb.* / C19.frame obligations)",
+                     "the numbers n1 >= 0 of local groups and n2 >= 0 of instructions are SYMBOLIC (no bound); both loops of Code.Encode are cut mechanically (pyvc.loopcut): after k groups the buffer holds uleb(n1) and groups 0..k-1 "
+                     "in order; after all groups and j instructions it holds in addition instructions 0..j-1 in order (entry ids n1..n1+j-1); byte count uleblen(n1) + T(.); the second loop starts from the state the first one's invariant describes at k = n1 "
+                     "(no statement stands between the two loops: checked on the source on every run)"])
+def frame_unbounded_code(R):
+    """Code.Encode for any number of local groups and instructions: the body is uleb(#groups) ++ groups in order ++ instructions in order ++ 0x0B, and
+    the returned buffer is exactly that -- by induction over both loops (loop cut)."""
+    from pyvc import loopcut
+    from pyvc.sym import SymList, seq_view, All
+    cls = resolve(W + "::Code")
+    FN = W + "::Code.Encode"
+    cut0, cut1 = loopcut.cut(cls.Encode, 0), loopcut.cut(cls.Encode, 1)
+    R.check("C19.frame.unbounded.Code.loops-adjacent", FN, cut1.info["statements_before"] == cut0.info["statements_before"] + 1,
+            detail=f"statements before the loops: {cut0.info['statements_before']} / {cut1.info['statements_before']}")
+    if cut1.info["statements_before"] != cut0.info["statements_before"] + 1:
+        return
+    AbsIO = type("_AbsIO_Code", (_AbsIO,), dict(allow_tail=True))
+    FakeIO = type("FakeIO", (), dict(BytesIO=AbsIO))
+
+    def cut_ctx(stub):
+        return patched(_mod(), bytes=sym_bytes, len=_len3, io=FakeIO, WriteInteger=stub)
+
+    def code(n1, n2):
+        c = cls()
+        lists = [k for k, v in vars(c).items() if isinstance(v, list)]
+        if len(lists) != 2:
+            raise Missing(f"Code: expected two lists (local groups, instructions), found {lists}")
+        return c, lists
+
+    def axioms(ctx, k):
+        k = term(k)
+        ctx.assume(z3.And(_TS(z3.IntVal(0)) == 0, z3.Implies(k >= 0, z3.And(_Z(k) >= 0, _TS(k + 1) == _TS(k) + _Z(k)))))
+
+    def havoc(n1, k):
+        c = AbsIO()
+        c.phase = "entries"
+        c.head = [leb.ULEB(n1.t)]
+        LOG = z3.Array("LOG", z3.IntSort(), z3.IntSort())
+        c.log = SymList(LOG, k)
+        c.nbytes = leb.uleblen(n1.t) + _TS(term(k))
+        return c, All(0, k, lambda i: LOG[i] == i)
+
+    names = {}
+
+    def run_init(ctx):
+        n1, n2 = ctx.int("n1"), ctx.int("n2")
+        ctx.assume(z3.And(n1.t >= 0, n1.t < 2 ** 32, n2.t >= 0))
+        c, lists = code(n1, n2)
+        e1, e2 = _SymEntries(n1), _SymEntries(n2)
+        # which list is which is decided by what the two loops range over
+        for a, b in ((0, 1), (1, 0)):
+            vars(c)[lists[a]], vars(c)[lists[b]] = e1, e2
+            stub = _LebCut()
+            with cut_ctx(stub):
+                kind, _, loc = cut0.prologue(c)
+                it0 = cut0.iterable(**{k: v for k, v in loc.items() if k in cut0.params})
+                it1 = cut1.iterable(**{k: v for k, v in loc.items() if k in cut1.params})
+            if getattr(it0, "base", None) is e1 and getattr(it1, "base", None) is e2:
+                names["locals"], names["instrs"] = lists[a], lists[b]
+                break
+        bufs = [k for k, v in loc.items() if isinstance(v, _AbsIO)]
+        if "locals" not in names or len(bufs) != 1:
+            return [("init.reaches-the-loops", False, f"buffers {bufs}")]
+        names["buf"] = bufs[0]
+        b = loc[bufs[0]]
+        return [("init.group-count-first", z3.And(z3.BoolVal(len(b.head) == 1 and not b.problems), b.head[0].value == n1.t) if b.head and isinstance(b.head[0], leb.ULEB) else False),
+                ("init.no-entry-yet", z3.And(b.log.n == 0, b.nbytes == leb.uleblen(n1.t))),
+                ("init.ranges-over-all-groups-and-instructions", z3.And(it0.n.t == n1.t, it1.n.t == n2.t)),
+                ("init.leb-precondition", z3.And(*stub.requires))]
+
+    def replay(model, clause):
+        return script("""
+            import io, nsl.WebAssembly as W
+            {{dec}}
+            class I:
+                def __init__(s, n): s.n = n
+                def WriteTo(s, o): o.write(b'\\x2a' * s.n)
+            bad = None
+            for nl, sizes in ((0, []), (1, [3]), (3, [1] * 200), (130, [2, 0, 5]), (300, [1] * 300), (2, [1] * max(1, min(int({{n2}}), 20000)))):
+                c = W.Code()
+                for k in range(nl): c.AddLocal(W.Local(W.ValueType.i32 if k % 2 else W.ValueType.f32))
+                for n in sizes: c.AddInstruction(I(n))
+                bs = bytes(c.Encode())
+                groups, p = udec(bs, 0)
+                total = 0
+                for g in range(groups):
+                    cnt, p = udec(bs, p); total += cnt; p += 1
+                if groups != nl or total != nl or bs[p:] != b'\\x2a' * sum(sizes) + b'\\x0b':
+                    bad = (nl, sizes[:5], len(sizes), 'groups', groups, 'locals declared', total, 'rest', len(bs) - p, 'expected', sum(sizes) + 1); break
+            print('first bad (locals, instruction sizes):', bad)
+            if bad: print('REPLAY-CONFIRMED')
+            """.replace("{{dec}}", leb.PY_DECODERS), n2=int(model.get("n2", 5)))
+
+    verify(R, "C19.frame.unbounded.Code", FN, run_init, replay, label="loop-cut")
+    if "buf" not in names:
+        return
+    bname = names["buf"]
+
+    def state(n1, n2, b):
+        c, lists = code(n1, n2)
+        vars(c)[names["locals"]], vars(c)[names["instrs"]] = _SymEntries(n1), _SymEntries(n2)
+        return {"self": c, bname: b}
+
+    for which, cutf in (("groups", cut0), ("instructions", cut1)):
+        def run_pres(ctx, which=which, cutf=cutf):
+            n1, n2, k, j = ctx.int("n1"), ctx.int("n2"), ctx.int("k"), ctx.int("j")
+            ctx.assume(z3.And(n1.t >= 0, n1.t < 2 ** 32, n2.t >= 0))
+            if which == "groups":
+                ctx.assume(z3.And(k.t >= 0, k.t < n1.t))
+            else:
+                ctx.assume(z3.And(k.t >= n1.t, k.t < n1.t + n2.t))
+            axioms(ctx, k)
+            b, inv = havoc(n1, k.t)
+            ctx.assume(inv.at(j.t))
+            stub = _LebCut()
+            with cut_ctx(stub):
+                kind, _, loc = cutf.step(cut_elem_=_KEntry(k.t), **state(n1, n2, b))
+            b2 = loc[bname]
+            arr, ln = seq_view(b2.log)
+            return [(f"{which}.completes-the-iteration", kind in ("next", "continue")),
+                    (f"{which}.same-buffer", b2 is b and not b.problems and not b.tail and b.pend is None, "; ".join(map(str, b.problems))),
+                    (f"{which}.one-more-entry-in-order", z3.And(ln == k.t + 1, All(0, k.t + 1, lambda i: arr[i] == i).at(j.t))),
+                    (f"{which}.byte-count", b2.nbytes == leb.uleblen(n1.t) + _TS(k.t + 1)),
+                    (f"{which}.leb-precondition", z3.And(*stub.requires))]
+
+        verify(R, "C19.frame.unbounded.Code", FN, run_pres, replay, label="loop-cut")
+
+    def run_exit(ctx):
+        n1, n2, j = ctx.int("n1"), ctx.int("n2"), ctx.int("j")
+        ctx.assume(z3.And(n1.t >= 0, n1.t < 2 ** 32, n2.t >= 0))
+        b, inv = havoc(n1, n1.t + n2.t)
+        ctx.assume(inv.at(j.t))
+        stub = _LebCut()
+        with cut_ctx(stub):
+            kind, val, loc = cut1.epilogue(**state(n1, n2, b))
+        arr, ln = seq_view(b.log)
+        return [("exit.returns-the-buffer", isinstance(val, _AbsView) and val.owner is b),
+                ("exit.end-opcode-last", len(b.tail) == 1 and isinstance(b.tail[0], (bytes, bytearray)) and bytes(b.tail[0]) == b"\x0b" and not b.problems, f"after the entries: {b.tail} {b.problems}"),
+                ("exit.entries-untouched", z3.And(ln == n1.t + n2.t, All(0, n1.t + n2.t, lambda i: arr[i] == i).at(j.t))),
+                ("exit.byte-count", b.nbytes == leb.uleblen(n1.t) + _TS(n1.t + n2.t) + 1),
+                ("exit.leb-precondition", z3.And(*stub.requires))]
+
+    verify(R, "C19.frame.unbounded.Code", FN, run_exit, replay, label="loop-cut")
